@@ -73,7 +73,9 @@ class PROP(Prop):
                         tail = rng.choice([[], ["eof"], ["e:ConnectionReset"]])
                         R = mb.rscript(parts, tail)
                         cs.append(Case(cligen.cli_line(proto, 1, [cligen.call_op(("RHR", 1, 1), R=R)]), {"k": "cli", "len": len(data)}, prof))
-                        cs.append(Case("SRV %s %s - - r=RSI:1:1:-,n,x=4,r=RHR:1" % (proto, R), {"k": "srv", "len": len(data)}, prof))
+                        # whatever the service answers to whatever was decoded: a response, nothing, an exception (also as the first answer)
+                        svc = rng.choice(["r=RSI:1:1:-,n,x=4,r=RHR:1", "x=4,x=1,r=RSI:1:1:-,n", "x=255,r=RHR:1,x=0", "n,x=11,r=RSI:1:1:-"])
+                        cs.append(Case("SRV %s %s - - %s" % (proto, R, svc), {"k": "srv", "len": len(data)}, prof))
                 # sustained junk
                 total = 65536 if tier == "quick" else 1 << 20
                 for kind in ("random", "frames", "zeros"):
